@@ -413,7 +413,7 @@ pub fn run(seed: u64, count: usize, outdir: &str, jit: bool) -> std::io::Result<
                 let env = |v: Var| sp[var_id(v, &dag.vs) as usize];
                 let vals = crate::refeval::eval_arena(&dag.ctx, &env, &mut orc);
                 let t = crate::refeval::zero_tie_taint(&dag.ctx, &vals);
-                dag.roots.iter().any(|r| t[r.verif_index()]) }).collect();
+                dag.roots.iter().any(|r| t[r.verif_index()]) || orc.atan00 || orc.atan_y_zero || orc.abs_of_neg_zero }).collect();
             let excused = |orig: &[Vec<f32>], simp: &[Vec<f32>]| -> bool {
                 orig.len() == simp.len() && orig.iter().zip(simp).enumerate().all(|(k, (a, b))| fmt_bits(a) == fmt_bits(b) || (hidden_at.get(k).copied().unwrap_or(false) && a.iter().zip(b).all(|(x, y)| canon_bits(*x) == canon_bits(*y) || x.is_nan()))) };
             for (li, l) in levels.iter().enumerate().skip(1) {
